@@ -4,6 +4,8 @@ import Sio.Props.C17
 #print axioms Sio.C17.sync_async_tables_equal
 #print axioms Sio.C17.eval_faithful
 #print axioms Sio.C17.table_behaves
+#print axioms Sio.C17.positional_order
+#print axioms Sio.C17.positional_order_no_vestigial
 #print axioms Sio.C17.argument_forwarded
 #print axioms Sio.C17.namespace_rule
 #print axioms Sio.C17.same_method_nothing_added
